@@ -107,6 +107,16 @@ def _call(arg):
         return {"__harness_error__": f"{type(exc).__name__}: {exc}", "tb": traceback.format_exc(), "case": jsonable(arg)}
 
 
+def call_guarded(fn, arg):
+    """run one case in the calling process with the same exception policy as the workers"""
+    global _WORKER_FN
+    prev, _WORKER_FN = _WORKER_FN, fn
+    try:
+        return _call(arg)
+    finally:
+        _WORKER_FN = prev
+
+
 def pmap(fn, items, workers: int = None, chunksize: int = None):
     """ordered parallel map over a list (fork: the workers inherit imported modules and seams)"""
     global _WORKER_FN
